@@ -76,6 +76,21 @@ def obs_opaque(case):
     return ev
 
 
+def obs_wide(case):
+    """a byte string / array of the WRONG length for a fixed-width X / A type: outside the type's range, to be refused"""
+    from pyubx2 import val2bytes
+
+    t, b = case["t"], bytes.fromhex(case["b"])
+    ev = {"kind": "wide", "t": t, "w": int(t[1:4]), "n": len(b), "out": "", "bytes2": []}
+    try:
+        r = val2bytes(list(b) if t[0] == "A" else b, t)
+        ev["out"] = "ok"
+        ev["bytes2"] = list(r) if isinstance(r, (bytes, bytearray)) else [-1]
+    except Exception as ex:  # noqa: BLE001
+        ev["out"] = type(ex).__name__
+    return ev
+
+
 def obs_text(case):
     """variable-length text (CH) and fixed character fields: bytes -> value -> bytes must be the identity on ASCII text, whatever
     the text looks like (backslashes, escape-like sequences, quotes ...)"""
@@ -165,7 +180,7 @@ def obs_att(case):
 
     name = case["name"]
     idx = att2idx(name)
-    return {"kind": "att", "base": case["base"], "i": case["i"], "j": case["j"], "name": name, "outname": att2name(name),
+    return {"kind": "att", "base": case["base"], "i": case["i"], "j": case["j"], "more": list(case.get("more", ())), "name": name, "outname": att2name(name),
             "outidx": [idx] if isinstance(idx, int) else list(idx)}
 
 
@@ -187,7 +202,10 @@ def obs_sphp2(case):
 
 
 OBSERVERS = {"text": obs_text, "sphp2": obs_sphp2, "int": obs_int, "dec": obs_dec, "opaque": obs_opaque, "nom": obs_nom, "ck": obs_ck, "time": obs_time, "bits": obs_bits,
-             "att": obs_att, "sphp": obs_sphp}
+             "att": obs_att, "sphp": obs_sphp, "wide": obs_wide}
+from .optchild import obs_opt_single  # noqa: E402
+
+OBSERVERS["opt"] = obs_opt_single
 
 
 # ---------------------------------------------------------------------------------------------------------------------
